@@ -86,12 +86,13 @@ class TU:
             if "w_ctor" in self.meta and not self.pl.all_fixed_locator:
                 sm = self.S("w_ctor")
                 mem = self.arg("w_ctor", "mem")
-                begin = self.obs("w_ctor", "post", "begin").single_atom()
+                from .rules_own import alloc_leaves
+                begin = alloc_leaves(self.obs("w_ctor", "post", "begin"))
                 offs = {}
                 for (addr, size), v in sm.final.items():
                     off = (addr - mem).const()
-                    a = v.single_atom() if isinstance(v, Lin) else None
-                    if off is not None and size == 8 and a is not None and a[0] == "fresh" and a != begin:
+                    a = alloc_leaves(v) if isinstance(v, Lin) else None
+                    if off is not None and size == 8 and a and a != begin:
                         offs.setdefault(a, []).append(off)
                 if offs:
                     self._table_off = min(min(v) for v in offs.values())
